@@ -213,7 +213,7 @@ func newSess(run *vh.Run, univ [][]byte, cacheH int) *sess {
 		s.tr.CacheHeightLimit = cacheH
 	}
 	// the updatedNodes bookkeeping is followed on the sessions with small universes and no live cache
-	s.track = cacheH == 0 && len(univ) <= 40 && run.Rng.Intn(3) == 0
+	s.track = cacheH == 0 && len(univ) <= 40 && run.Rng.Intn(6) == 0
 	if s.track {
 		s.op(fmt.Sprintf("new %d w", cacheH), "ok", false)
 	} else {
